@@ -72,6 +72,25 @@ PROPS['C08'].update({
     'level_note': 'Hypotheses: wf (established by NewBoard, preserved by every operation - proved) and castle_ok (a side that has castled does not castle again; automatic for games from legal positions, violated only from FENs granting castling rights to a king off its home square - counterexample kept in BoardHeap4). Result is restored as Undecided (property: a not-drawn result). Popping below a fork point is excluded by the statement and by Fork s comment. Trusted: Coq kernel, harness, model of pointer sharing as list indices.',
 })
 
+def _search(pid, rule, expl):
+    d = _board(pid, [pid], rule, expl)
+    d['assumptions'] = ['leaf evaluation eval.Material (exact small integers), exploration FullExploration, quiescence over captures (the model takes exploration and evaluation as parameters)',
+                        'container/heap move ordering is modelled step by step (Model/Search.v movelist) and compared through exact PV / node-count equality']
+    return d
+
+PROPS['C03'] = _search('C03',
+    'searches on 21 curated endings (mates, promotions, e.p., clocks 98/99) and random kings+1..4-men positions, depths 1..3 (quick) / 4 (thorough), static and quiescence leaves, histories with a threefold on the board and inside the tree; a case is non-trivial when the start is a legal position; classes count depths, mate values, quiescence.',
+    'Full-window AlphaBeta of the implementation compared (a) with the model search on the model board: halted flag, node count, score, whole PV and number of cancellation polls must be equal; (b) with the reference minimax spec_mm on the specification game (independent of bitboards, ordering, windows): value equal, PV a legal line no longer than the depth whose first move attains the value; board getters before = after.')
+PROPS['C13'] = _search('C13',
+    'the same positions with random windows a < b drawn from {-inf, +inf, M+-1..5, heuristics -12..12}, depths 1..3(4), and depth 0 (quiescence alone) with and without window.',
+    'Returned value r of the implementation checked against the three-case contract of the property w.r.t. the reference value v = spec_mm / spec_qv; model search compared exactly.')
+PROPS['C11'] = _search('C11',
+    'pairs of runs (no table / table of 32 B .. 1 MB, plain or minimum-depth filtered) of search sequences 1,2,3,3 or d,d,2 sharing one table on history-free positions with clock + depth < 100; every Write is recorded with the position it was made for and a sample of the exact entries is evaluated by the reference minimax.',
+    'Score with table = minimax value (= score without table); PV first move optimal; sampled exact entries equal the reference value of their position at their depth; model search with the model table (Model/TT.v) compared exactly, including replacement behaviour.')
+PROPS['C12'] = _search('C12',
+    'for each position an uncancelled control run, then cancellation at poll index 0,1,2,3,5,8,...,987 of a counting context (every n is a node entry or store guard where the search polls), each followed by a clean search on the same table and compared with a clean search on a fresh table.',
+    'Halted run: reports ErrHalted and no score, board getters before = after, no table write after the first cancelled poll; follow-up search on the same table returns what the control returns; model search with the cancellation oracle compared exactly (nodes, polls).')
+
 # Every listed property is claimed; reasons would go here otherwise.
 NOT_APPLICABLE = [
     {'property_id': pid, 'reason': 'check not built yet in this session (work in progress; see DESIGN.md section 9)'}
